@@ -67,6 +67,12 @@ instance : BEq Value := ⟨beq⟩
 
 end Value
 
+/-! projections with decidable equality (Value itself is a nested inductive without `DecidableEq`) -/
+def Value.isError : Value → Bool | .error _ => true | _ => false
+def Value.bulk? : Value → Option Bytes | .bulk b => some b | _ => none
+def Value.int? : Value → Option Int | .int i => some i | _ => none
+def Value.isNil : Value → Bool | .nil => true | _ => false
+
 def crlf : Bytes := [13, 10]
 
 /-! ## Serializer -/
